@@ -155,6 +155,13 @@ var propSpecs = map[string]*PropSpec{
 		TrustedBase: []string{"the SQL parser accepts exactly one statement and the text executed is the text parsed (Format preserves the statement: C16)", "ast.Walk visits every node Children() yields and nodes() keeps every non-nil Node and []Node argument (exercised by the bounded corpus, not proved)", "exempt expression positions (CREATE TABLE column and table constraints, ALTER TABLE actions, CREATE INDEX columns): SQLite and PostgreSQL reject subqueries there and the statement needs DSN-administrator authority anyway", "Authorized answers for the grant table (C43)"},
 		Extra:       c15Extra,
 	},
+	"C26": {
+		Patterns:    []string{"./..."},
+		Level:       "proof",
+		Explanation: "every file-system call of the runtime os, io and json packages receives a name that came out of the sandbox join whenever the program is sandboxed and a root is configured (anchored assertions at every sink, discharged deductively from the contracts of the per-package sandboxName helpers); a context switched to sandboxed mode has a root configured; native pass-through declarations of file functions declare their string parameters Sandboxed and the native-call rewriting joins whenever a root is configured; util.SandboxJoin / resolveWithinSandbox / withinRoot are under path contracts: every value returned is the root itself or was accepted by the lexical check and, after symbolic links in its existing prefix were resolved, by the check against the resolved root; a census from go/types on every run finds every sink call in the runtime packages, the builtins and the interpreter, and each must be under such a contract or on the list of names the program does not supply",
+		TrustedBase: []string{"filepath.Clean / Join / Rel / Dir / Abs / EvalSymlinks and os.Lstat mean what their documentation says; the meta-lemma that a path whose longest existing prefix resolves inside the resolved root, extended by components that do not exist, resolves inside the root", "settings.Get, data.String, data.BoolOrFalse are functions of their arguments during one runtime call", "the sandboxed-I/O symbol of the symbol table is the flag Context.Sandboxed set (symbols.SymbolTable.Get, trusted contract)", "time of check versus time of use (a link swapped between the join and the open) is a schedule and is not covered", "the compiler's import path handling and the server's own file handling are outside the scope of the census (the property is about runtime functions)"},
+		Extra:       c26Extra,
+	},
 	"C27": {
 		Patterns: []string{"./..."},
 		Level:    "proof",
